@@ -166,7 +166,7 @@ public:
     {
         auto cmp = key_compare{};
         auto* p  = etl::lower_bound(_storage.begin(), _storage.end(), value, cmp);
-        if (p != _storage.end() && !(*(p) != value)) {
+        if (p != _storage.end() && !cmp(value, *p)) {
             return pair<iterator, bool>(p, false);
         }
 
